@@ -486,8 +486,9 @@ def usable(c):
     return isinstance(ob, dict) and not ob.get("error") and not ob.get("panic") and ("events" in ob or "res" in ob)
 
 
-def crosscheck_reference(rep, recv_cases, limit=400):
-    """the Python transcription of the reference predicate must agree with coq/Ref/Rfc9113Http.v"""
+def crosscheck_reference(rep, recv_cases, limit=400, send_cases=()):
+    """the Python transcription of the reference predicate and of the known-class predicates must agree
+    with coq/Ref/Rfc9113Http.v and coq/Proofs/HttpRulesProofs.v (known_class_b, known_send)"""
     blocks, seen = [], set()
     for c in recv_cases:
         for fr in c["frames"]:
@@ -501,6 +502,11 @@ def crosscheck_reference(rep, recv_cases, limit=400):
             blocks.append((fs, fr.get("eos", False)))
             if len(blocks) >= limit:
                 break
+    for c in send_cases:
+        wire, _ = send_wire(c)
+        if isinstance(wire, list) and (tuple(wire), False) not in seen:
+            seen.add((tuple(wire), False))
+            blocks.append((wire, False))
     terms = []
     for fs, eos in blocks:
         bits = []
@@ -508,18 +514,22 @@ def crosscheck_reference(rep, recv_cases, limit=400):
             for kind in KINDS:
                 for nc in (False, True):
                     bits.append(cbool(malformed_block(role, kind, nc, eos, fs)))
+        for kind in KINDS:
+            bits.append(cbool(known_class(kind, fs) is not None))
+        bits.append(cbool(known_send(fs) is not None))
         terms.append("(%s, %s, [%s])" % (cfields(fs), cbool(eos), "; ".join(bits)))
-    pre = PREAMBLE + (
+    pre = PREAMBLE.replace("Model.HttpRules.", "Model.HttpRules Proofs.HttpRulesProofs.") + (
+        "Definition kinds := [Request; Response; Informational; PushedRequest; Trailers].\n"
         "Definition ref_bits (fs : list field) (eos : bool) : list bool :=\n"
         "  flat_map (fun r => flat_map (fun k => map (fun hk => malformed_block r k hk eos fs) [HasContent; NoContent])\n"
-        "    [Request; Response; Informational; PushedRequest; Trailers]) [Client; Server].\n"
+        "    kinds) [Client; Server] ++ map (fun k => known_class_b k fs) kinds ++ [known_send fs].\n"
         "Definition check_ref (x : list field * bool * list bool) : bool :=\n"
         "  let '(fs, eos, bits) := x in list_eqb Bool.eqb (ref_bits fs eos) bits.\n")
     failing, err = common.coq_eval_failing("httprules_ref", pre, "check_ref", terms, shard=100)
     if err:
         rep.violation("broken-correspondence", {"what": "coqc failed on the reference cross-check", "log": err[-3000:]}, no_input=True)
     for i in failing[:3]:
-        rep.violation("broken-correspondence", {"what": "the Python oracle and coq/Ref/Rfc9113Http.v disagree on a block",
+        rep.violation("broken-correspondence", {"what": "the Python oracle and the Coq reference / known-class predicates disagree on a block",
                                                 "fields": show_fields(blocks[i][0]), "end_stream": blocks[i][1]}, no_input=True)
     return len(terms), len(failing)
 
@@ -541,6 +551,9 @@ def run_oracle(rep, cases, name):
         if v:
             n_viol += 1
             if n_viol <= 3:
+                if c["mode"] == "recv":
+                    c = shrink(c, lambda cs: [bool(oracle_recv(x)[0]) for x in cs])
+                    v = oracle_recv(c)[0] or v
                 payload = {"oracle": "RFC 9113 section 8 reference predicate (coq/Ref/Rfc9113Http.v)", "violations": v[:4],
                            "case": {k2: c[k2] for k2 in c if k2 != "obs"}, "observed": c["obs"],
                            "replay": "httprules --mode %s (seed/index in case)" % c["mode"]}
@@ -565,7 +578,7 @@ def correspond_httprules(rep, tier, seed):
     for err in (err1, err2):
         if err:
             rep.violation("broken-correspondence", {"what": "coqc failed on generated httprules cases", "log": err[-3000:]}, no_input=True)
-    nref, badref = crosscheck_reference(rep, recv, 300 if tier == "quick" else 3000)
+    nref, badref = crosscheck_reference(rep, recv, 300 if tier == "quick" else 3000, send)
     handed = sum(1 for c in recv for per in c["obs"]["events"] for e in per if e[0] in ("accept", "resp", "info", "push", "trailers"))
     refused = sum(1 for c in recv if c["obs"]["wire"]["rst"] or c["obs"]["wire"]["goaway"] is not None)
     rep.correspondences.append({
@@ -593,11 +606,71 @@ def correspond_httprules(rep, tier, seed):
     return good, f1, f2
 
 
+def replay_cases(case_list):
+    """re-run receive cases (dicts with role/head_req/ext/hls/frames) on the real crate"""
+    os.makedirs(common.CASES, exist_ok=True)
+    path = os.path.join(common.CASES, "httprules_replay.json")
+    with open(path, "w") as f:
+        json.dump([{k: c.get(k) for k in ("role", "head_req", "ext", "hls", "frames")} for c in case_list], f)
+    rc, out = common.run_harness("httprules", ["--replay", path], timeout=600)
+    res = []
+    for line in out.splitlines():
+        line = line.strip()
+        if line.startswith("{"):
+            try:
+                o = json.loads(line)
+            except ValueError:
+                continue
+            if "mode" in o:
+                res.append(o)
+    return res
+
+
+def smaller(c):
+    """candidate reductions of a receive case: drop the last frame, drop one field of one block"""
+    out = []
+    fr = c["frames"]
+    if len(fr) > 1:
+        out.append(dict(c, frames=fr[:-1]))
+    for j, f in enumerate(fr):
+        if f["t"] == "D":
+            continue
+        for k in range(len(f["fields"])):
+            g = dict(f, fields=f["fields"][:k] + f["fields"][k + 1:])
+            out.append(dict(c, frames=fr[:j] + [g] + fr[j + 1:]))
+    return out
+
+
+def shrink(c, still_bad, rounds=12):
+    """greedy: while some reduction still shows the problem on the REAL crate, take it.
+    still_bad(list of re-run cases) -> list of booleans"""
+    cur = c
+    for _ in range(rounds):
+        cands = smaller(cur)[:60]
+        if not cands:
+            break
+        rerun = [r for r in replay_cases(cands) if usable(r)]
+        if not rerun:
+            break
+        flags = still_bad(rerun)
+        nxt = next((r for r, b in zip(rerun, flags) if b), None)
+        if nxt is None:
+            break
+        cur = nxt
+    return cur
+
+
+def disagrees(cases):
+    failing, err = common.coq_eval_failing("httprules_shrink", PREAMBLE, "check_http_recv", [coq_recv_case(c) for c in cases], shard=120)
+    bad = set(failing)
+    return [i in bad for i in range(len(cases))]
+
+
 def report_disagreements(rep, recv, f1, send, f2):
     import re
     for i in f1[:3]:
-        c = recv[i]
-        rc, out = common.coq_eval_raw("httprules_diag", PREAMBLE + "Definition c := %s.\nEval vm_compute in (diag_http_recv c).\n"
+        c = shrink(recv[i], disagrees)
+        rc, out = common.coq_eval_raw("httprules_diag", PREAMBLE + "Definition c : recv_case := %s.\nEval vm_compute in (diag_http_recv c).\n"
                                       "Eval vm_compute in (let '(cfg, fs, _) := c in model_obs cfg fs).\n" % coq_recv_case(c))
         m = re.search(r"= (\d+)%N", out)
         code = int(m.group(1)) if m else None
@@ -605,13 +678,35 @@ def report_disagreements(rep, recv, f1, send, f2):
             "correspondence": "Model/HttpRules.v check_http_recv vs /repo",
             "what_differs": {1: "the script left the modelled territory", 2: "what the application was handed", 3: "RST_STREAM frames",
                              4: "GOAWAY", 5: "431 answer"}.get(code, "?"),
-            "model_says": out[-1500:], "case": {k: c[k] for k in c if k != "obs"}, "observed": c["obs"],
+            "model_says": out[-1500:], "case(shrunk)": {k: c[k] for k in c if k != "obs"}, "observed": c["obs"],
+            "readable": [[f["t"], f.get("eos"), show_fields(bf(f["fields"])) if "fields" in f else f.get("len")] for f in c["frames"]],
             "theorems_no_longer_tied_to_code": THEOREMS}, no_input=True)
     for i in f2[:3]:
         c = send[i]
         rep.violation("broken-correspondence", {
             "correspondence": "Model/HttpRules.v check_http_send vs /repo", "case": c,
-            "theorems_no_longer_tied_to_code": ["C13_send", "C13_send_except_known"]}, no_input=True)
+            "theorems_no_longer_tied_to_code": ["C13_send", "C13_send_except_known", "C13_send_push_except_known"]}, no_input=True)
+
+
+def replay(path):
+    """./check C13 --replay <file>: re-run the recorded case on the real crate and re-evaluate the oracle"""
+    with open(path) as f:
+        body = json.load(f)
+    case = body.get("case") or body.get("case(shrunk)")
+    if not case or case.get("mode") == "send" or "frames" not in case:
+        print("replay: the file holds no receive case; send-side cases are replayed by `httprules --mode send --n 0`")
+        return 1
+    res = [r for r in replay_cases([case]) if usable(r)]
+    if not res:
+        print("replay: the harness could not run the case")
+        return 1
+    viol, known, _ = oracle_recv(res[0])
+    print(json.dumps({"observed": res[0]["obs"], "oracle_violations": viol, "known": known}, indent=1)[:4000])
+    if viol:
+        print("VIOLATION property=C13 replay=%s" % path)
+        return 1
+    print("OK property=C13 replay shows no violation (known classes hit: %s)" % sorted(set(known)))
+    return 0
 
 
 def search_httprules(rep, tier, seed, reason=None):
